@@ -449,9 +449,18 @@ func pathOf(v ssa.Value, depth int) string {
 
 func shortQual(p *types.Package) string { return p.Name() }
 
+// IdxHook, when set, lets a client that knows the value of an index
+// expression (e.g. an option value under a known option context) render it.
+var IdxHook func(ssa.Value) (string, bool)
+
 func idxPath(v ssa.Value, depth int) string {
 	if k, ok := IntConst(v); ok {
 		return fmt.Sprint(k)
+	}
+	if IdxHook != nil {
+		if s, ok := IdxHook(v); ok {
+			return s
+		}
 	}
 	return pathOf(v, depth)
 }
@@ -468,6 +477,10 @@ func addrPath(a ssa.Value, depth int) string {
 			if _, isStruct := al.Type().(*types.Pointer).Elem().Underlying().(*types.Struct); isStruct {
 				return "alloc:" + valueID(al) + "." + FieldAddrName(x)
 			}
+		}
+		if inner, ok := x.X.(*ssa.FieldAddr); ok {
+			// field of an embedded / nested struct value: &(&p.A).B is the memory p.A.B
+			return addrPath(inner, depth+1) + "." + FieldAddrName(x)
 		}
 		return pathOf(x.X, depth+1) + "." + FieldAddrName(x)
 	case *ssa.IndexAddr:
